@@ -6,6 +6,15 @@
 // flattened with markers.  The result is a Lean data file (Generated/Access.lean) that the
 // property-C16 model is compiled from (SonicSpec.RW.lower).
 //
+// The children containers (linkedNodes / linkedPairs, ast/buffer.go) are followed as well: their
+// methods are listed under "linkedPairs.Get" etc. with every access to their fields, to the chunks
+// and to the hash index printed as a read / write of the pseudo field `c` ("memory reachable
+// through p"), and a *Node method that calls into a container it obtained from `self.p` gets a
+// `.call "linkedPairs.Get"` event - so a write to shared structure inside a documented read path
+// (e.g. an index built lazily by Get) shows up in the read operation's program.
+// `parser.Parse()` on a local parser inside a *Node method is printed as `.parse` (it builds the
+// children and their container).
+//
 // Stdlib only (go/ast, go/parser, go/token).  Purely syntactic and order-preserving; it fails
 // loudly (exit status 2) on any statement or expression shape it does not know.
 //
@@ -68,6 +77,11 @@ type walker struct {
 	parsers  map[string]bool // local identifiers holding a Parser
 	perr     map[string]bool // local identifiers holding the ParsingError of parser.Parse()
 	params   map[string]bool // bool parameters of the function
+	contRecv bool              // receiver is *linkedNodes / *linkedPairs
+	contType string            // its type name
+	contVars map[string]string // identifiers (locals, parameters) of type *linkedNodes / *linkedPairs
+	contPtr  map[string]bool   // locals pointing into container memory (&self.tail[a], self.At(i))
+	labels   map[string]token.Pos
 	ev       []string
 }
 
@@ -95,6 +109,15 @@ var fields = map[string]bool{"t": true, "l": true, "p": true, "m": true}
 func (w *walker) recvField(e ast.Expr) (string, bool) {
 	e = unparen(e)
 	s, ok := e.(*ast.SelectorExpr)
+	if ok && w.contRecv && w.isRecv(s.X) {
+		return "c", true // any field of the container: index, head, tail, size
+	}
+	if ok && !w.contRecv {
+		// x.size etc. on a container-typed local / parameter
+		if id, isId := unparen(s.X).(*ast.Ident); isId && w.contVars[id.Name] != "" && !w.isRecv(s.X) {
+			return "c", true
+		}
+	}
 	if !ok || !w.isRecv(s.X) || !w.nodeRecv {
 		return "", false
 	}
@@ -102,6 +125,71 @@ func (w *walker) recvField(e ast.Expr) (string, bool) {
 		return s.Sel.Name, true
 	}
 	return "", false
+}
+
+// contName: the container type an expression of the form *linkedNodes / *linkedPairs names
+func contName(t ast.Expr) string {
+	t = unparen(t)
+	if s, ok := t.(*ast.StarExpr); ok {
+		t = unparen(s.X)
+	}
+	if id, ok := t.(*ast.Ident); ok && (id.Name == "linkedNodes" || id.Name == "linkedPairs") {
+		return id.Name
+	}
+	return ""
+}
+
+// contTypeOf: e is a children container - the receiver of a container method, a container-typed
+// identifier, a conversion (*linkedPairs)(x) or new(linkedPairs)
+func (w *walker) contTypeOf(e ast.Expr) string {
+	e = unparen(e)
+	if w.contRecv && w.isRecv(e) {
+		return w.contType
+	}
+	switch x := e.(type) {
+	case *ast.Ident:
+		return w.contVars[x.Name]
+	case *ast.CallExpr:
+		if len(x.Args) == 1 {
+			if _, isStar := unparen(x.Fun).(*ast.StarExpr); isStar {
+				return contName(x.Fun)
+			}
+			if id, ok := unparen(x.Fun).(*ast.Ident); ok && id.Name == "new" {
+				return contName(x.Args[0])
+			}
+		}
+	}
+	return ""
+}
+
+// contRooted: an assignment target inside container memory: self.size, self.index[k], self.tail[a][b],
+// *n / (*n)[b] for n := &self.tail[a]
+func (w *walker) contRooted(e ast.Expr) bool {
+	deref := false
+	for {
+		e = unparen(e)
+		if f, ok := w.recvField(e); ok && f == "c" {
+			return true
+		}
+		switch x := e.(type) {
+		case *ast.IndexExpr:
+			e = x.X
+			deref = true
+		case *ast.StarExpr:
+			e = x.X
+			deref = true
+		case *ast.SelectorExpr:
+			if id, ok := unparen(x.X).(*ast.Ident); ok && w.contPtr[id.Name] {
+				return true
+			}
+			return false
+		case *ast.Ident:
+			// the pointer variable itself is a local; only what it points to is container memory
+			return deref && w.contPtr[x.Name]
+		default:
+			return false
+		}
+	}
 }
 
 func (w *walker) isStarRecv(e ast.Expr) bool {
@@ -149,16 +237,24 @@ func (w *walker) expr(e ast.Expr) {
 			w.emit(".rd ." + f)
 			return
 		}
+		if id, ok := unparen(x.X).(*ast.Ident); ok && w.contPtr[id.Name] {
+			w.emit(".rd .c")
+			return
+		}
 		w.expr(x.X)
 	case *ast.StarExpr:
 		if w.isStarRecv(x) {
 			w.emit(".rdAll")
 			return
 		}
+		if id, ok := unparen(x.X).(*ast.Ident); ok && w.contPtr[id.Name] {
+			w.emit(".rd .c")
+			return
+		}
 		w.expr(x.X)
 	case *ast.UnaryExpr:
 		if x.Op == token.AND {
-			if _, ok := w.recvField(x.X); ok {
+			if f, ok := w.recvField(x.X); ok && f != "c" {
 				die(x.Pos(), "address of a receiver field taken outside atomic.* in %s", w.fname)
 			}
 		}
@@ -254,10 +350,38 @@ func (w *walker) call(c *ast.CallExpr, setsLock bool) {
 			if setsLock {
 				kind = ".callSet"
 			}
+			if w.contRecv {
+				w.emit(fmt.Sprintf(".call %q .none", w.contType+"."+f.Sel.Name))
+				return
+			}
 			w.emit(fmt.Sprintf("%s %q %s", kind, f.Sel.Name, boolArg(c.Args, w.params)))
 			return
 		}
-		// parser.Parse() etc. on a local parser: not the receiver; arguments may mention it
+		// method of a children container: (*linkedPairs)(self.p).Get(k), s.At(i), self.BuildIndex()
+		if ct := w.contTypeOf(f.X); ct != "" {
+			if conv, ok := unparen(f.X).(*ast.CallExpr); ok {
+				for _, a := range conv.Args {
+					w.expr(a)
+				}
+			}
+			for _, a := range c.Args {
+				w.expr(a)
+			}
+			w.emit(fmt.Sprintf(".call %q .none", ct+"."+f.Sel.Name))
+			return
+		}
+		// parser.Parse() / decodeArray / decodeObject on a local parser inside a *Node method: builds the
+		// children and their container
+		if w.nodeRecv && (f.Sel.Name == "Parse" || f.Sel.Name == "decodeArray" || f.Sel.Name == "decodeObject") {
+			if id, ok := unparen(f.X).(*ast.Ident); ok && !w.isRecv(id) {
+				for _, a := range c.Args {
+					w.argExpr(a, f.Sel.Name)
+				}
+				w.emit(".parse")
+				return
+			}
+		}
+		// other methods on a local parser etc.: not the receiver; arguments may mention it
 		w.expr(f.X)
 		for _, a := range c.Args {
 			w.argExpr(a, f.Sel.Name)
@@ -291,6 +415,14 @@ func (w *walker) call(c *ast.CallExpr, setsLock bool) {
 			}
 			w.emit(".panic")
 			return
+		case "delete", "copy":
+			if len(c.Args) >= 1 && w.contRooted(c.Args[0]) {
+				for _, a := range c.Args[1:] {
+					w.expr(a)
+				}
+				w.emit(".wr .c")
+				return
+			}
 		}
 		for _, a := range c.Args {
 			w.argExpr(a, f.Name)
@@ -417,6 +549,7 @@ func (w *walker) bind(lhs []ast.Expr, rhs []ast.Expr) {
 			delete(w.tvar, id.Name)
 			delete(w.lockvar, id.Name)
 			delete(w.lazyvar, id.Name)
+			delete(w.contPtr, id.Name)
 		}
 	}
 	if len(lhs) == 1 && len(rhs) == 1 {
@@ -425,6 +558,20 @@ func (w *walker) bind(lhs []ast.Expr, rhs []ast.Expr) {
 			return
 		}
 		r := unparen(rhs[0])
+		if ct := w.contTypeOf(r); ct != "" && !(w.contRecv && w.isRecv(r)) {
+			w.contVars[id.Name] = ct
+		}
+		if w.contRecv {
+			// pointers into the container's memory
+			if u, ok := r.(*ast.UnaryExpr); ok && u.Op == token.AND && w.contRooted(u.X) {
+				w.contPtr[id.Name] = true
+			}
+			if c, ok := r.(*ast.CallExpr); ok {
+				if sel, ok := unparen(c.Fun).(*ast.SelectorExpr); ok && w.isRecv(sel.X) && sel.Sel.Name == "At" {
+					w.contPtr[id.Name] = true
+				}
+			}
+		}
 		if w.isRecv(r) && !w.valRecv {
 			w.alias[id.Name] = true
 			return
@@ -484,6 +631,10 @@ func (w *walker) assign(s *ast.AssignStmt) {
 	}
 	for _, l := range s.Lhs {
 		l = unparen(l)
+		if w.contRooted(l) {
+			w.emit(".wr .c")
+			continue
+		}
 		if f, ok := w.recvField(l); ok {
 			if w.valRecv {
 				continue
@@ -725,6 +876,11 @@ func (w *walker) stmt(s ast.Stmt) {
 			}
 			return
 		}
+		if w.contRooted(x.X) {
+			w.emit(".rd .c")
+			w.emit(".wr .c")
+			return
+		}
 		w.expr(x.X)
 	case *ast.DeclStmt:
 		gd, ok := x.Decl.(*ast.GenDecl)
@@ -735,6 +891,11 @@ func (w *walker) stmt(s ast.Stmt) {
 			vs, ok := sp.(*ast.ValueSpec)
 			if !ok {
 				continue // type / const declarations
+			}
+			if ct := contName(vs.Type); ct != "" && vs.Type != nil {
+				for _, n := range vs.Names {
+					w.contVars[n.Name] = ct
+				}
 			}
 			for _, v := range vs.Values {
 				w.expr(v)
@@ -865,9 +1026,19 @@ func (w *walker) stmt(s ast.Stmt) {
 			w.emit(".cont")
 		case token.FALLTHROUGH:
 			w.emit(".fallthru")
+		case token.GOTO:
+			// a forward jump to a label of the same function is printed as a marker and flattened as
+			// fall-through (every access between here and the label is kept: over-approximation)
+			if x.Label == nil || w.labels[x.Label.Name] <= x.Pos() {
+				die(x.Pos(), "backward or unknown goto in %s", w.fname)
+			}
+			w.emit(".gotoFwd")
 		default:
-			die(x.Pos(), "goto")
+			die(x.Pos(), "branch statement")
 		}
+	case *ast.LabeledStmt:
+		w.emit(".label")
+		w.stmt(x.Stmt)
 	default:
 		die(s.Pos(), "statement %T in %s", s, w.fname)
 	}
@@ -923,8 +1094,25 @@ func main() {
 				name = "Parser." + name
 			case fd.Recv == nil && plainFuncs[name]:
 				w = &walker{fname: name}
+			case (rtyp == "linkedNodes" || rtyp == "linkedPairs") && ptr:
+				w = &walker{fname: name, recv: rname, contRecv: true, contType: rtyp}
+				name = rtyp + "." + name
 			default:
 				continue
+			}
+			w.contVars, w.contPtr, w.labels = map[string]string{}, map[string]bool{}, map[string]token.Pos{}
+			ast.Inspect(fd.Body, func(n ast.Node) bool {
+				if l, ok := n.(*ast.LabeledStmt); ok {
+					w.labels[l.Label.Name] = l.Pos()
+				}
+				return true
+			})
+			for _, p := range fd.Type.Params.List {
+				if ct := contName(p.Type); ct != "" {
+					for _, n := range p.Names {
+						w.contVars[n.Name] = ct
+					}
+				}
 			}
 			w.alias, w.mutex, w.tvar, w.lockvar = map[string]bool{}, map[string]bool{}, map[string]bool{}, map[string]bool{}
 			w.lazyvar = map[string]bool{}
